@@ -123,14 +123,16 @@ def draw_geometry(rng: random.Random, method: str, small: bool = True) -> dict:
 
 def _draw_geometry(rng: random.Random, method: str, small: bool = True) -> dict:
     lo, hi = (15.0, 40.0) if small else (30.0, 80.0)
+    if method == "ROWWISE":
+        lo = 24.0
     length = r3(rng.uniform(lo, hi))
     shape = rng.choice(["lt", "eq", "gt"])
     if shape == "eq":
         width = length
     elif shape == "lt":
-        width = r3(length * rng.uniform(1.1, 1.6))
+        width = r3(length * rng.uniform(1.1, 1.6 if method != "ROWWISE" else 1.3))
     else:
-        width = r3(length * rng.uniform(0.55, 0.9))
+        width = r3(length * rng.uniform(0.55 if method != "ROWWISE" else 0.8, 0.9))
     short_side = min(length, width)
     b_min = r3(rng.uniform(3.0, 5.0))
     # lots must admit >= 3 rows at the maximum spacing (property C02's precondition)
@@ -170,14 +172,18 @@ def _draw_geometry(rng: random.Random, method: str, small: bool = True) -> dict:
     if method == "BIRECTANGLECONSTRAINED":
         return {"method": method, "b_min": b_min, "b_max_x": b_max, "b_max_y": r3(b_max * rng.uniform(1.0, 1.2)),
                 "property_boundary": poly, "no_go_boundaries": nogo}
-    # ROWWISE
+    # ROWWISE: the lot must admit at least three rows at the maximum spacing in every direction (C02's precondition;
+    # narrower lots make the field generator divide by zero): the narrowest extent of the outline over all directions
+    # (the quadrilateral / pentagon shapes cut up to 4 m off a side) bounds the maximum spacing
     use_perim = rng.random() < 0.5
     rot_lo = r3(rng.uniform(-90.0, -20.0))
+    narrow = min(length, width) - 4.0
+    max_sp = r3(min(rng.uniform(9.0, 12.0), narrow / 2.15))
     return {
         "method": method,
         "perimeter_spacing_ratio": r3(rng.uniform(0.6, 0.95)) if use_perim else None,
-        "max_spacing": r3(rng.uniform(9.0, 12.0)),
-        "min_spacing": r3(rng.uniform(4.5, 6.5)),
+        "max_spacing": max_sp,
+        "min_spacing": r3(max_sp * rng.uniform(0.45, 0.65)),
         "spacing_step": rng.choice([0.1, 0.2, 0.5]),
         "max_rotation": r3(rng.uniform(10.0, 90.0)),
         "min_rotation": rot_lo,
